@@ -40,6 +40,7 @@ pub struct SolverCache<D: DependencyProvider> {
     /// A mapping from a solvable to a list of dependencies
     solvable_dependencies: Arena<DependenciesId, Dependencies>,
     solvable_to_dependencies: FrozenCopyMap<SolvableId, DependenciesId>,
+    solvable_to_dependencies_in_flight: RefCell<HashMap<SolvableId, Rc<Event>>>,
 
     /// A mapping that indicates that the dependencies for a particular solvable
     /// can cheaply be retrieved from the dependency provider. This
@@ -48,17 +49,17 @@ pub struct SolverCache<D: DependencyProvider> {
     hint_dependencies_available: RefCell<BitVec>,
 }
 
-/// Removes the in-flight marker of a candidates request when dropped and
-/// notifies any waiters. This also happens when the request is dropped before
-/// it completed (e.g. because solving was cancelled).
-struct InFlightGuard<'a> {
-    in_flight: &'a RefCell<HashMap<NameId, Rc<Event>>>,
-    package_name: NameId,
+/// Removes the in-flight marker of a request when dropped and notifies any
+/// waiters. This also happens when the request is dropped before it completed
+/// (e.g. because solving was cancelled).
+struct InFlightGuard<'a, K: std::hash::Hash + Eq> {
+    in_flight: &'a RefCell<HashMap<K, Rc<Event>>>,
+    key: K,
 }
 
-impl Drop for InFlightGuard<'_> {
+impl<K: std::hash::Hash + Eq> Drop for InFlightGuard<'_, K> {
     fn drop(&mut self) {
-        if let Some(notifier) = self.in_flight.borrow_mut().remove(&self.package_name) {
+        if let Some(notifier) = self.in_flight.borrow_mut().remove(&self.key) {
             notifier.notify(usize::MAX);
         }
     }
@@ -77,6 +78,7 @@ impl<D: DependencyProvider> SolverCache<D> {
             requirement_to_sorted_candidates: Default::default(),
             solvable_dependencies: Default::default(),
             solvable_to_dependencies: Default::default(),
+            solvable_to_dependencies_in_flight: Default::default(),
             hint_dependencies_available: Default::default(),
         }
     }
@@ -146,7 +148,7 @@ impl<D: DependencyProvider> SolverCache<D> {
                         // returned.
                         let in_flight_guard = InFlightGuard {
                             in_flight: &self.package_name_to_candidates_in_flight,
-                            package_name,
+                            key: package_name,
                         };
 
                         // Otherwise we have to get them from the DependencyProvider
@@ -382,11 +384,44 @@ impl<D: DependencyProvider> SolverCache<D> {
                     return Err(value);
                 }
 
-                let dependencies = self.provider.get_dependencies(solvable_id).await;
-                let dependencies_id = self.solvable_dependencies.alloc(dependencies);
-                self.solvable_to_dependencies
-                    .insert_copy(solvable_id, dependencies_id);
-                dependencies_id
+                // Check if there is an in-flight request, e.g. from a provider that queries
+                // this cache from within `sort_candidates` while the solver requests the
+                // same dependencies.
+                let in_flight_request = self
+                    .solvable_to_dependencies_in_flight
+                    .borrow()
+                    .get(&solvable_id)
+                    .cloned();
+                match in_flight_request {
+                    Some(in_flight) => {
+                        in_flight.listen().await;
+                        match self.solvable_to_dependencies.get_copy(&solvable_id) {
+                            Some(id) => id,
+                            // The request we were waiting for was dropped before it
+                            // completed. Start over.
+                            None => {
+                                return Box::pin(self.get_or_cache_dependencies(solvable_id)).await;
+                            }
+                        }
+                    }
+                    None => {
+                        self.solvable_to_dependencies_in_flight
+                            .borrow_mut()
+                            .insert(solvable_id, Rc::new(Event::new()));
+                        let in_flight_guard = InFlightGuard {
+                            in_flight: &self.solvable_to_dependencies_in_flight,
+                            key: solvable_id,
+                        };
+
+                        let dependencies = self.provider.get_dependencies(solvable_id).await;
+                        let dependencies_id = self.solvable_dependencies.alloc(dependencies);
+                        self.solvable_to_dependencies
+                            .insert_copy(solvable_id, dependencies_id);
+
+                        drop(in_flight_guard);
+                        dependencies_id
+                    }
+                }
             }
         };
 
